@@ -57,7 +57,7 @@ int snoopy_util_string_append (char *destString, size_t destStringBufSize, const
     destStringSize          = strlen(destString);
     appendThisSize          = strlen(appendThis);
     destStringSizeRemaining = destStringBufSize - destStringSize;
-    if (destStringSizeRemaining < appendThisSize) {
+    if (destStringSizeRemaining <= appendThisSize) {   // "<=": room for the terminating null character is needed too
         return SNOOPY_ERROR;
     }
 
